@@ -204,7 +204,7 @@ func iaSet(r *vlib.Rand, pool []addr.IA, pct int) (map[addr.IA]struct{}, []strin
 
 func main() {
 	e := vlib.Init()
-	e.Rule = "random histories (30-45 ops): 2-4 fabricated groups over 6 ASes (random owner/" +
+	e.Rule = "random histories (30-45 ops): 2-4 fabricated groups over 6 ASes in 2 ISDs with colliding AS numbers (random owner/" +
 		"writers/readers/registries, local AS a registry in ~75%), registrations by members and " +
 		"strangers of 0-3 really signed segments (down/up/core, good and bad signatures, unknown " +
 		"groups), requests by members and strangers for 0-3 groups and 5 destinations, plus public " +
@@ -223,8 +223,10 @@ func main() {
 	signers[0] = graph.NewSigner(graph.WithPrivateKey(goodKey))
 	signers[1] = graph.NewSigner(graph.WithPrivateKey(otherKey))
 
+	// two ISDs with COLLIDING AS numbers (1-…:110 / 2-…:110, 1-…:111 / 2-…:111): membership is
+	// by full ISD-AS, an AS number alone must never grant a role
 	ias := []addr.IA{mustIA("1-ff00:0:110"), mustIA("1-ff00:0:111"), mustIA("1-ff00:0:112"),
-		mustIA("1-ff00:0:113"), mustIA("2-ff00:0:210"), mustIA("2-ff00:0:211")}
+		mustIA("1-ff00:0:113"), mustIA("2-ff00:0:110"), mustIA("2-ff00:0:111")}
 	ids := []ident{
 		{ias: []addr.IA{ias[0], ias[1], ias[2]}, ifs: [][2]uint16{{0, 1}, {2, 3}, {4, 0}}},
 		{ias: []addr.IA{ias[0], ias[1], ias[2]}, ifs: [][2]uint16{{0, 9}, {8, 3}, {4, 0}}},
@@ -289,7 +291,8 @@ func (h *history) pickSeg(bad bool) *segInfo {
 }
 
 func (h *history) peer(g *hiddenpath.Group, role int) addr.IA {
-	// role: 0 any AS, 1 a writer, 2 a reader, 3 owner, 4 a registry (fall back to any)
+	// role: 0 any AS, 1 a writer, 2 a reader, 3 owner, 4 a registry (fall back to any),
+	// 5 / 6 / 7 the owner's / a writer's / a reader's AS number in ANOTHER ISD
 	pick := func(m map[addr.IA]struct{}) (addr.IA, bool) {
 		var l []addr.IA
 		for a := range m {
@@ -317,9 +320,32 @@ func (h *history) peer(g *hiddenpath.Group, role int) addr.IA {
 			if a, ok := pick(g.Registries); ok {
 				return a
 			}
+		case 5:
+			return twin(g.Owner, h.r)
+		case 6:
+			if a, ok := pick(g.Writers); ok {
+				return twin(a, h.r)
+			}
+		case 7:
+			if a, ok := pick(g.Readers); ok {
+				return twin(a, h.r)
+			}
 		}
 	}
 	return h.ias[h.r.Intn(len(h.ias))]
+}
+
+// twin returns the ISD-AS with the same AS number in another ISD.
+func twin(a addr.IA, r *vlib.Rand) addr.IA {
+	isd := addr.ISD(3 - int(a.ISD())) // 1 <-> 2
+	if a.ISD() > 2 || r.Chance(15) {
+		isd = 42
+	}
+	t, err := addr.IAFrom(isd, a.AS())
+	if err != nil {
+		panic(err)
+	}
+	return t
 }
 
 var segTypes = []seg.Type{seg.TypeDown, seg.TypeUp, seg.TypeCore}
@@ -409,7 +435,7 @@ func (h *history) register() {
 		gid = h.gids[r.Intn(len(h.gids)-1)] // existing
 	}
 	grp := h.groups[gid]
-	role := []int{1, 1, 1, 1, 0, 2, 3, 4}[r.Intn(8)]
+	role := []int{1, 1, 1, 1, 0, 2, 3, 4, 6, 6, 5}[r.Intn(11)]
 	peer := h.peer(grp, role)
 	n := r.Range(0, 3)
 	if r.Chance(60) {
@@ -457,6 +483,13 @@ func (h *history) register() {
 		want, why = false, "verify"
 	}
 	tag := "reg-" + why
+	if why == "not-writer" {
+		for w := range grp.Writers {
+			if w.AS() == peer.AS() {
+				tag = "reg-not-writer-as-collision"
+			}
+		}
+	}
 	if grp == nil {
 		tag = "~reg-unknown-group"
 	}
@@ -481,6 +514,27 @@ func (h *history) register() {
 
 func has(m map[addr.IA]struct{}, a addr.IA) bool { _, ok := m[a]; return ok }
 
+// asCollides: peer shares its AS number (not its ISD-AS) with a member of a requested group.
+func asCollides(groups map[hiddenpath.GroupID]*hiddenpath.Group, gids []hiddenpath.GroupID, peer addr.IA) bool {
+	for _, id := range gids {
+		g := groups[id]
+		if g == nil {
+			continue
+		}
+		if g.Owner.AS() == peer.AS() {
+			return true
+		}
+		for _, m := range []map[addr.IA]struct{}{g.Writers, g.Readers, g.Registries} {
+			for a := range m {
+				if a.AS() == peer.AS() {
+					return true
+				}
+			}
+		}
+	}
+	return false
+}
+
 func (h *history) serve() {
 	r := h.r
 	n := r.Range(1, 2)
@@ -501,7 +555,7 @@ func (h *history) serve() {
 	if len(gids) > 0 {
 		grp = h.groups[gids[0]]
 	}
-	peer := h.peer(grp, []int{2, 2, 1, 3, 4, 0, 0}[r.Intn(7)])
+	peer := h.peer(grp, []int{2, 2, 1, 3, 4, 0, 0, 5, 5, 6, 7}[r.Intn(11)])
 	dst := h.ias[r.Intn(4)]
 	if len(h.ref) > 0 && r.Chance(55) { // a destination some stored segment ends at
 		var ids []string
@@ -548,6 +602,9 @@ func (h *history) serve() {
 		sort.Strings(wantSegs)
 	}
 	tag := "srv-" + why
+	if why == "not-member" && asCollides(h.groups, gids, peer) {
+		tag = "srv-not-member-as-collision"
+	}
 	if want {
 		tag = "srv-ok-empty"
 		if len(wantSegs) > 0 {
